@@ -8,13 +8,17 @@ import Mathlib.Algebra.Module.Basic
 import Mathlib.Algebra.BigOperators.Pi
 import Mathlib.Tactic.Ring
 import Mathlib.Tactic.Linarith
+import Mathlib.Analysis.SpecialFunctions.Trigonometric.Basic
+import Mathlib.Tactic.FinCases
 
 /-! # C17 — the de Bruijn-grid generator: what the index map guarantees
 
 Proved: the pentagrid index (`floor` of the signed distance to the first line of a bundle) changes by exactly one across a
 single grid line and not at all otherwise; consequently two faces adjacent across a line of bundle `b` are mapped to points
 that differ by exactly the star vector of `b` (every edge is parallel to a star direction and all edges have the same
-length), and the four faces round a grid vertex are mapped to a rhombus.  *Not* proved (de Bruijn's theorem): planarity and
+length: `edge_length_one`, for koala's star vectors `(cos a_b, sin a_b)` with or without angle disorder), and the four faces round a
+grid vertex are mapped to a rhombus whose sides enclose the angle `a_{b₁} − a_{b₂}` (`rhombus_angle`); with five bundles and no
+disorder that is 72° or 144°: only the two Penrose rhombi occur (`penrose_rhombi`).  *Not* proved (de Bruijn's theorem): planarity and
 injectivity of the map, connectivity, `V − E + F = 1`; these are decided on the implementation's output. -/
 
 namespace C17
@@ -117,5 +121,69 @@ theorem starOf_sound (B : Nat) (d : Quasi.Idx) (b : Nat) (neg : Bool) (h : Quasi
 example : Quasi.starOf 5 [0, 0, -1, 0, 0] = some (2, true) := by decide
 example : Quasi.edgesAreStar 3 [[0, 0, 0], [1, 0, 0], [1, 1, 0]] [(0, 1), (2, 1)] = true := by decide
 example : Quasi.reduce [(4, [1, 1, 1, 1, 1])] [3, 2, 2, 2, 2] = Quasi.reduce [(4, [1, 1, 1, 1, 1])] [1, 0, 0, 0, 0] := by decide
+
+section Angles
+open Real
+
+/-! ### the star vectors of koala: `(cos a_b, sin a_b)`, with or without angle disorder -/
+
+variable {β : Type} [Fintype β] [DecidableEq β]
+
+/-- `np.array([np.sum(index * np.cos(angles)), np.sum(index * np.sin(angles))])` is `position` for these star vectors -/
+noncomputable def starOfAngles (ang : β → ℝ) (b : β) : ℝ × ℝ := (Real.cos (ang b), Real.sin (ang b))
+
+def sqNorm (v : ℝ × ℝ) : ℝ := v.1 * v.1 + v.2 * v.2
+def dot (v w : ℝ × ℝ) : ℝ := v.1 * w.1 + v.2 * w.2
+
+/-- **all edges have the same length** (before the final rescaling into the unit square, which is one common factor): the
+    images of two faces adjacent across a line of bundle `b` are at distance exactly 1, for every choice of angles -/
+theorem edge_length_one (ang : β → ℝ) (idx : β → ℤ) (b : β) :
+    sqNorm (position (starOfAngles ang) (idx + (Pi.single b (1 : ℤ) : β → ℤ)) - position (starOfAngles ang) idx) = 1 := by
+  rw [edge_is_star_vector]
+  simp only [sqNorm, starOfAngles]
+  have := Real.cos_sq_add_sin_sq (ang b)
+  nlinarith [this]
+
+omit [Fintype β] [DecidableEq β] in
+/-- the two sides of the rhombus at a grid vertex of bundles `b₁`, `b₂` enclose the angle `a_{b₁} − a_{b₂}` -/
+theorem rhombus_angle (ang : β → ℝ) (b₁ b₂ : β) :
+    dot (starOfAngles ang b₁) (starOfAngles ang b₂) = Real.cos (ang b₁ - ang b₂) := by
+  simp only [dot, starOfAngles, Real.cos_sub]
+
+/-- **five bundles without angle disorder: only the two Penrose rhombi**.  The sides at a grid vertex of two different
+    bundles enclose 72° or 144° (cosine `cos(2π/5)` or `cos(4π/5)`), i.e. the rhombi are the 72°/108° and the 36°/144° one. -/
+theorem penrose_rhombi (b₁ b₂ : Fin 5) (hne : b₁ ≠ b₂) :
+    dot (starOfAngles (fun b : Fin 5 => 2 * π * (b : ℕ) / 5) b₁) (starOfAngles (fun b : Fin 5 => 2 * π * (b : ℕ) / 5) b₂) = Real.cos (2 * π / 5) ∨
+    dot (starOfAngles (fun b : Fin 5 => 2 * π * (b : ℕ) / 5) b₁) (starOfAngles (fun b : Fin 5 => 2 * π * (b : ℕ) / 5) b₂) = Real.cos (4 * π / 5) := by
+  rw [rhombus_angle]
+  have key : ∀ d : ℤ, (d = 1 ∨ d = -1 ∨ d = 4 ∨ d = -4) → Real.cos (2 * π * d / 5) = Real.cos (2 * π / 5) := by
+    intro d hd
+    rcases hd with h | h | h | h <;> subst h
+    · norm_num
+    · have : 2 * π * ((-1 : ℤ) : ℝ) / 5 = -(2 * π / 5) := by push_cast; ring
+      rw [this, Real.cos_neg]
+    · have : 2 * π * ((4 : ℤ) : ℝ) / 5 = 2 * π - 2 * π / 5 := by push_cast; ring
+      rw [this, Real.cos_two_pi_sub]
+    · have : 2 * π * ((-4 : ℤ) : ℝ) / 5 = -(2 * π - 2 * π / 5) := by push_cast; ring
+      rw [this, Real.cos_neg, Real.cos_two_pi_sub]
+  have key2 : ∀ d : ℤ, (d = 2 ∨ d = -2 ∨ d = 3 ∨ d = -3) → Real.cos (2 * π * d / 5) = Real.cos (4 * π / 5) := by
+    intro d hd
+    rcases hd with h | h | h | h <;> subst h
+    · congr 1; push_cast; ring
+    · have : 2 * π * ((-2 : ℤ) : ℝ) / 5 = -(4 * π / 5) := by push_cast; ring
+      rw [this, Real.cos_neg]
+    · have : 2 * π * ((3 : ℤ) : ℝ) / 5 = 2 * π - 4 * π / 5 := by push_cast; ring
+      rw [this, Real.cos_two_pi_sub]
+    · have : 2 * π * ((-3 : ℤ) : ℝ) / 5 = -(2 * π - 4 * π / 5) := by push_cast; ring
+      rw [this, Real.cos_neg, Real.cos_two_pi_sub]
+  have e : 2 * π * ((b₁ : ℕ) : ℝ) / 5 - 2 * π * ((b₂ : ℕ) : ℝ) / 5 = 2 * π * (((b₁ : ℕ) : ℤ) - ((b₂ : ℕ) : ℤ) : ℤ) / 5 := by
+    push_cast; ring
+  rw [e]
+  fin_cases b₁ <;> fin_cases b₂ <;> first
+    | exact absurd rfl hne
+    | (left; apply key; decide)
+    | (right; apply key2; decide)
+
+end Angles
 
 end C17
